@@ -147,6 +147,13 @@ def run_case(case) -> Result:
             if res.violations:
                 return
             W.s2c_tape, W.c2s_tape = [], []
+            # the connection's own callers (ping loop, refresh loop, tidy task) are callers too: none of them may have been
+            # taken down by what the generated callers went through (retry pauses, timeouts)
+            if gate == "open":
+                for t in tm._tasks:
+                    if t.get_name() in ("SPA:Ping loop", "SPA:Refresh loop", "ASYNC:Tidy tasks") and t.done():
+                        why = "cancelled" if t.cancelled() else repr(t.exception())
+                        res.fail(f"C06|library-task-died|{t.get_name()}", f"{t.get_name()} ended ({why}) while the generated callers ran")
             wire = [w for w in W.wire[w0:] if w[1] == "c2s"]
             deliv = W.delivered[d0:]
             by_task = {}
